@@ -206,6 +206,90 @@ func runC06(c *fw.Ctx) {
 	if c.Want(0, "exh/done") {
 		c.Count("exhaustive_spaces_completed", 1)
 	}
+	// ---- an allotment whose portions do not add up to one, nested in a clause of an outer
+	// allotment: every clause of an allotment is distributed to, whatever its share (zero
+	// portion, floor share of zero, nothing to split), so the inner one must be rejected ----
+	{
+		outers := []string{"0%", "0/1", "1/2", "1/3", "1/1", "100%", "0.000%", "$p"}
+		inners := [][]string{{"1/2", "1/3"}, {"50%", "49%"}, {"1/1", "1/1"}, {"0/1"}, {"2/3", "2/3"}, {"99.999%"}}
+		totals := []string{"0", "1", "2", "100", "18446744073709551616"}
+		idx := 0
+		for oi, outer := range outers {
+			for ii, inner := range inners {
+				for _, tot := range totals {
+					for side := 0; side < 2; side++ {
+						for pos := 0; pos < 2; pos++ {
+							idx++
+							id := fmt.Sprintf("nested-badsum/%d/%d/%s/%d/%d", oi, ii, tot, side, pos)
+							if !c.Want(44_000_000+idx, id) {
+								continue
+							}
+							var head gen.Allot
+							var vars []*gen.VarDecl
+							vals := map[string]string{"n": "USD " + tot}
+							switch {
+							case outer == "$p":
+								vars = []*gen.VarDecl{{Type: "portion", Name: "p"}}
+								vals["p"] = []string{"0%", "0/5", "1/7"}[(ii+side+pos)%3]
+								head = &gen.AllotVar{V: gen.V("p")}
+							case strings.HasSuffix(outer, "%"):
+								head = &gen.AllotLit{Lit: &gen.Percent{Text: outer}}
+							default:
+								head = &gen.AllotLit{Lit: &gen.Ratio{Text: outer}}
+							}
+							lit := func(t string) gen.Allot {
+								if strings.HasSuffix(t, "%") {
+									return &gen.AllotLit{Lit: &gen.Percent{Text: t}}
+								}
+								return &gen.AllotLit{Lit: &gen.Ratio{Text: t}}
+							}
+							sc := &gen.Script{Vars: append([]*gen.VarDecl{{Type: "monetary", Name: "n"}}, vars...)}
+							if side == 0 {
+								in := &gen.DstAllot{}
+								for j, t := range inner {
+									in.Items = append(in.Items, &gen.DstAllotItem{A: lit(t), To: gen.To(gen.DA(fmt.Sprintf("x%d", j)))})
+								}
+								items := []*gen.DstAllotItem{{A: head, To: gen.To(in)}, {A: &gen.AllotRemaining{}, To: gen.To(gen.DA("z"))}}
+								if pos == 1 && outer != "1/1" && outer != "100%" {
+									// the nested clause comes second, after a clause that takes the rest
+									items = []*gen.DstAllotItem{{A: &gen.AllotRemaining{}, To: gen.To(gen.DA("z"))}, {A: head, To: gen.To(in)}}
+								}
+								sc.Stmts = []gen.Stmt{&gen.Send{Sent: &gen.SentValue{E: gen.V("n")}, Src: gen.SA("world"), Dst: &gen.DstAllot{Items: items}}}
+							} else {
+								in := &gen.SrcAllot{}
+								for range inner {
+									in.Items = append(in.Items, &gen.SrcAllotItem{From: gen.SA("world")})
+								}
+								for j, t := range inner {
+									in.Items[j].A = lit(t)
+								}
+								items := []*gen.SrcAllotItem{{A: head, From: in}, {A: &gen.AllotRemaining{}, From: gen.SA("world")}}
+								if pos == 1 {
+									items = []*gen.SrcAllotItem{{A: &gen.AllotRemaining{}, From: gen.SA("world")}, {A: head, From: in}}
+								}
+								sc.Stmts = []gen.Stmt{&gen.Send{Sent: &gen.SentValue{E: gen.V("n")}, Src: &gen.SrcAllot{Items: items}, Dst: gen.DA("z")}}
+							}
+							cs := mkCase(sc, vals, nil)
+							e, ok := run(c, cs)
+							if !ok {
+								continue
+							}
+							c.Count("nested_bad_sums", 1)
+							if e.out.Panicked {
+								c.Violation("panic:"+e.out.Frame, "panic: "+e.out.PanicVal, e.input())
+								return
+							}
+							if e.out.OK() || e.out.Class != model.EAllotmentSum {
+								c.Violation("nested-bad-sum-accepted", fmt.Sprintf("the inner portions %v do not add up to one (outer clause %s, total %s) but the outcome is %s", inner, outer, tot, e.out.Summary()), e.input())
+								return
+							}
+							c.Distinct(fmt.Sprintf("nested|%d|%d|%s|%d|%d", oi, ii, tot, side, pos))
+						}
+					}
+				}
+			}
+		}
+	}
 	// ---- percentages with every number of decimals from 1 to 40 ----
 	for d := 1; d <= 40; d++ {
 		for rep := 0; rep < c.N(6, 60); rep++ {
@@ -333,6 +417,63 @@ func runC06(c *fw.Ctx) {
 			if msg := checkShares(ps, total2, shares2); msg != "" {
 				c.Violation("shares-second-use", fmt.Sprintf("second use of the same portions: %s; portions %v total %s shares %v", msg, ps, total2, shares2), e.input())
 				return
+			}
+		}
+		// the same parse result run again with the portion variables holding other values
+		if len(vars) >= 1 && !twice {
+			var idxs []int
+			for _, d := range vars {
+				var j int
+				fmt.Sscanf(d.Name, "p%d", &j)
+				idxs = append(idxs, j)
+			}
+			cs2 := *cs
+			cs2.Vars = map[string]string{}
+			for k2, v := range cs.Vars {
+				cs2.Vars[k2] = v
+			}
+			ps2 := append([]*big.Rat(nil), ps...)
+			wantReject := false
+			hasRemaining := false
+			for _, h := range heads {
+				if _, ok := h.(*gen.AllotRemaining); ok {
+					hasRemaining = true
+				}
+			}
+			if len(idxs) >= 2 && r.Bool() {
+				a, b := idxs[0], idxs[1]
+				cs2.Vars[vars[0].Name], cs2.Vars[vars[1].Name] = cs.Vars[vars[1].Name], cs.Vars[vars[0].Name]
+				ps2[a], ps2[b] = ps[b], ps[a]
+			} else if !hasRemaining && ps[idxs[0]].Cmp(one) < 0 {
+				// another valid portion: the sum is no longer one
+				cs2.Vars[vars[0].Name] = "1/1"
+				wantReject = true
+			} else {
+				cs2.Vars = nil
+			}
+			if cs2.Vars != nil {
+				o2, _ := real.RunCase(e.parse.Result, &cs2, real.Exact)
+				c.Eval()
+				e2 := &exec{c: &cs2, text: e.text, parse: e.parse, out: o2, firstVars: cs.Vars}
+				c.Count("second_runs_of_a_parse_result_with_other_portions", 1)
+				switch {
+				case o2.Panicked:
+					c.Violation("panic:"+o2.Frame, "second run of the parse result panics: "+o2.PanicVal, e2.input())
+					return
+				case wantReject:
+					if o2.OK() || o2.Class != model.EAllotmentSum {
+						c.Violation("bad-sum-accepted-second-run", fmt.Sprintf("second run with %s = 1/1: the portions no longer add up to one but the outcome is %s", vars[0].Name, o2.Summary()), e2.input())
+						return
+					}
+				case !o2.OK():
+					c.Violation("allot-failed-second-run", fmt.Sprintf("second run with swapped portion values failed: %s (%v)", o2.Summary(), o2.Err), e2.input())
+					return
+				default:
+					if msg := checkShares(ps2, total, observeShares(e2, k, side)); msg != "" {
+						c.Violation("shares-second-run", fmt.Sprintf("second run of one parse result with other portion values: %s; portions %v total %s", msg, ps2, total), e2.input())
+						return
+					}
+				}
 			}
 		}
 		c.Count("random_cases", 1)
